@@ -29,6 +29,7 @@ import (
 	"github.com/influxdata/influxdb/pkg/radix"
 	intar "github.com/influxdata/influxdb/pkg/tar"
 	"github.com/influxdata/influxdb/pkg/tracing"
+	"github.com/influxdata/influxdb/pkg/verifhook"
 	"github.com/influxdata/influxdb/query"
 	"github.com/influxdata/influxdb/tsdb"
 	_ "github.com/influxdata/influxdb/tsdb/index"
@@ -1646,13 +1647,22 @@ func (e *Engine) deleteSeriesRange(seriesKeys [][]byte, min, max int64) error {
 	// Sort the series keys because ApplyEntryFn iterates over the keys randomly.
 	bytesutil.Sort(deleteKeys)
 
+	if verifhook.Enabled {
+		verifhook.Point("engine.delete.tombstoned", e.path)
+	}
 	e.Cache.DeleteRange(deleteKeys, min, max)
+	if verifhook.Enabled {
+		verifhook.Point("engine.delete.cachecleared", e.path)
+	}
 
 	// delete from the WAL
 	if e.WALEnabled {
 		if _, err := e.WAL.DeleteRange(deleteKeys, min, max); err != nil {
 			return err
 		}
+	}
+	if verifhook.Enabled {
+		verifhook.Point("engine.delete.logged", e.path)
 	}
 
 	// The series are deleted on disk, but the index may still say they exist.
@@ -2007,6 +2017,9 @@ func (e *Engine) writeSnapshotAndCommit(log *zap.Logger, closedFiles []string, s
 		log.Info("Error writing snapshot from compactor", zap.Error(err))
 		return err
 	}
+	if verifhook.Enabled {
+		verifhook.Yield("engine.snapshot.written", e.path)
+	}
 
 	e.mu.RLock()
 	defer e.mu.RUnlock()
@@ -2026,6 +2039,9 @@ func (e *Engine) writeSnapshotAndCommit(log *zap.Logger, closedFiles []string, s
 
 	// clear the snapshot from the in-memory cache, then the old WAL files
 	e.Cache.ClearSnapshot(true)
+	if verifhook.Enabled {
+		verifhook.Point("engine.snapshot.installed", e.path)
+	}
 
 	if e.WALEnabled {
 		if err := e.WAL.Remove(closedFiles); err != nil {
